@@ -17,11 +17,12 @@ def sock(cls='DataLinkConnection', **kw):
 
 
 CLOSED = ('s.addr is None and s.state.value == 0 and len(s.send_queue) == 0 and len(s.recv_queue) == 0 and '
-          's.send_ready.notified >= 1 and s.recv_ready.notified >= 1')
+          's.send_ready.notified_all >= 1 and s.recv_ready.notified_all >= 1')
 # ServiceAccessPoint.shutdown: every socket bound there is unbound, shut down, emptied and its waiters notified
 def closed(s):
     return ('%s.addr is None and %s.state.value == 0 and len(%s.send_queue) == 0 and len(%s.recv_queue) == 0 and '
-            '%s.send_ready.notified >= 1 and %s.recv_ready.notified >= 1' % (s, s, s, s, s, s))
+            # every waiter is woken (notify_all), not just one of them
+            '%s.send_ready.notified_all >= 1 and %s.recv_ready.notified_all >= 1' % (s, s, s, s, s, s))
 
 
 for cls, _prop in (('RawAccessPoint', 'C09'), ('LogicalDataLink', 'C09'), ('DataLinkConnection', 'C09'),
@@ -35,7 +36,7 @@ for cls, _prop in (('RawAccessPoint', 'C09'), ('LogicalDataLink', 'C09'), ('Data
              name='%s/sap.shutdown[%s]' % (_prop, cls),
              ensures=[('O-term-state.list', 'len(self.sock_list) == 0'),
                       ('O-term-state.s0', closed('s0')), ('O-term-state.s1', closed('s1'))] +
-                     ([('O-term-state.dlc', 's0.acks_ready.notified >= 1 and s0.send_token.notified >= 1')]
+                     ([('O-term-state.dlc', 's0.acks_ready.notified_all >= 1 and s0.send_token.notified_all >= 1')]
                       if cls == 'DataLinkConnection' else []),
              # shutdown runs in the link thread (terminate()): a wait() without timeout there - e.g. the DISC/DM
              # handshake of close() on a socket that is still bound - would never be woken
@@ -185,6 +186,16 @@ contract(L + 'ServiceDiscovery.resolve', 'C09',
                        sent=DictOf({}), sdreq=Fixed([], 'deque'), sdres=Fixed([], 'deque'), dmpdu=Fixed([], 'deque')),
               name=Bytes(1, 40)),
          name='C09/wake.sdp.resolve', ensures=[('post.none', 'result is None')], raises={}, **WAKE)
+
+
+# ServiceDiscovery.shutdown (service access point 1, reached from terminate()): the name table is dropped and EVERY
+# thread waiting in resolve() is woken - several clients may be resolving at once
+contract(L + 'ServiceDiscovery.shutdown', 'C09',
+         dict(self=Obj(L + 'ServiceDiscovery', _partial=False, llc=Obj(L + 'LogicalLinkController', lock=Ref('self.lock_')),
+                       lock_=Lock(), resp=Cond('lock_'), snl=DictOf({}), tids=Const(list(range(256))),
+                       sent=DictOf({}), sdreq=Fixed([], 'deque'), sdres=Fixed([], 'deque'), dmpdu=Fixed([], 'deque'))),
+         name='C09/sdp.shutdown', raises={},
+         ensures=[('O-term-state.sdp', 'self.snl is None and self.resp.notified_all >= 1 and not self.lock_.locked()')])
 
 
 # ---------------------------------------------------------------- the run loops always end in terminate()
